@@ -304,6 +304,20 @@ int chdir(const char *path)
   return r;
 }
 
+/* with a virtual clock (VSHIM_CLOCK) files written by the programs carry virtual timestamps: the times are set when a descriptor that
+ * was opened for writing is closed, so that "age = now - mtime" means the same thing for the programs as on a real system */
+static unsigned char fdwr[1024];
+static int fd_is_reg(int fd);
+static void stamp_virtual(int fd)
+{
+  if (clockoff && fd >= 0 && fd < 1024 && fdwr[fd]) {
+    struct timespec ts[2]; time_t v = time(0);
+    ts[0].tv_sec = v; ts[0].tv_nsec = 0; ts[1] = ts[0];
+    futimens(fd, ts);
+  }
+  if (fd >= 0 && fd < 1024) fdwr[fd] = 0;
+}
+
 static int is_mut_open(int flags) { return (flags & (O_CREAT | O_TRUNC | O_APPEND)) || (flags & O_ACCMODE) != O_RDONLY; }
 
 int open(const char *path, int flags, ...)
@@ -319,6 +333,7 @@ int open(const char *path, int flags, ...)
   f = maybe_fault("open");
   if (f == 1) { tr("open\t%s\t%d\t-1\t%d\tFAULT", e, flags, errno); return -1; }
   r = real_open(path, flags, mode);
+  if (r >= 0 && r < 1024) fdwr[r] = is_mut_open(flags) ? 1 : 0;
   tr("open\t%s\t%d\t%d\t%d", e, flags, r, r < 0 ? errno : 0);
   return r;
 }
@@ -337,6 +352,7 @@ int close(int fd)
   fdpath(fd, p, sizeof p);
   if (maybe_fault("close") == 1) { int e = errno; real_close(fd); errno = e; tr("close\t%d\t%s\t-1\t%d\tFAULT", fd, p, errno); return -1; }
   if (gated_fd(fd)) gate("REQ", "close", p);
+  if (fd_is_reg(fd)) stamp_virtual(fd); else if (fd >= 0 && fd < 1024) fdwr[fd] = 0;
   r = real_close(fd);
   tr("close\t%d\t%s\t%d\t%d", fd, p, r, r < 0 ? errno : 0);
   return r;
